@@ -47,6 +47,17 @@ CHECKS = {
              "iterators on imported, truncated and solved profiles must be a step of the specification, including the "
              "item identity, probability tokens, sums in micro-units and the round trip.",
         note="trace validation covers the runs recorded (seeded corpus); single-action infoset order left open"),
+    "C11": dict(
+        category="model_checking", design_ref="4 C11",
+        technique="Contract.tla (documented class as a declarative predicate) and Build.tla (operational model of "
+                  "init_recurse) related by TLC-checked theorems on every tree of an exhaustively enumerated universe and "
+                  "of a single-edit fault catalogue; every tree replayed into Game::from_root (verdict, error kind, "
+                  "renumbering-invariant compact game, evaluation / solving on accepted trees)",
+        text="exhaustive over U-tiny (394758 trees, valid and invalid; quick = 1/16 slice) plus every single edit at "
+             "every node of seeded larger valid trees; the verdict must be Ok iff no rule is violated and an error must "
+             "name a violated rule.",
+        note="small label alphabets, integer weights; two acceptances outside the class (R3s, R8) are listed known "
+             "findings; two others (R5 single/multi clash, R7 forgotten action) were repaired by fix: commits"),
 }
 
 NOT_YET = "check not built yet (construction in progress, see DESIGN.md section 9)"
